@@ -160,6 +160,12 @@ class NamedObject:
 
         ud = obj._dsl
 
+        # An object that already has its place in the hierarchy keeps its
+        # name and parent: s.alias = s.child.out is just another reference
+        if getattr( ud, 'parent_obj', None ) is not None:
+          super().__setattr__( name, obj )
+          return
+
         ud.parent_obj = s
         ud.level      = sd.level + 1
 
@@ -202,10 +208,10 @@ class NamedObject:
       elif isinstance( obj, list ) and obj and isinstance( obj[0], (NamedObject, list) ):
         fields = sd.NamedObject_fields
         if name in fields:
-          if getattr( s, name ) is obj:
-            return
-          raise FieldReassignError(f"The attempt to assign hardware construct to field {name} is illegal:\n"
-                                   f" - top{repr(s)[1:]} already has field {name} with type {type(getattr( s, name ))}.")
+          # The same list again ( s.x += [ ... ] ): name the new elements
+          if getattr( s, name ) is not obj:
+            raise FieldReassignError(f"The attempt to assign hardware construct to field {name} is illegal:\n"
+                                     f" - top{repr(s)[1:]} already has field {name} with type {type(getattr( s, name ))}.")
         fields.add( name )
 
         Q = deque( (u, (i,)) for i, u in enumerate(obj) )
@@ -215,6 +221,12 @@ class NamedObject:
 
           if isinstance( u, NamedObject ):
             ud = u._dsl
+
+            # An element that already has its place in the hierarchy keeps
+            # its name and parent (a list of references, or an element that
+            # was named when the list was assigned the first time)
+            if getattr( ud, 'parent_obj', None ) is not None:
+              continue
 
             ud.parent_obj = s
             ud.level      = sd.level + 1
